@@ -405,7 +405,7 @@ var ruleFinite = &Rule{
 			}
 		}
 		out.Counts["computed_floats_leaving_a_function"] = n
-		out.Floors["computed_floats_leaving_a_function"] = 3
+		out.Floors["computed_floats_leaving_a_function"] = 1
 		return out
 	},
 }
@@ -522,7 +522,7 @@ var ruleDiv = &Rule{
 			}
 		}
 		out.Counts["divisions_on_item_values"] = n
-		out.Floors["divisions_on_item_values"] = 4
+		out.Floors["divisions_on_item_values"] = 1
 		return out
 	},
 }
@@ -654,7 +654,7 @@ var ruleOvf = &Rule{
 			}
 		}
 		out.Counts["raw_integer_operations_on_item_values"] = n
-		out.Floors["raw_integer_operations_on_item_values"] = 5
+		out.Floors["raw_integer_operations_on_item_values"] = 2
 		return out
 	},
 }
@@ -937,7 +937,7 @@ var ruleF2I = &Rule{
 			}
 		}
 		out.Counts["float_to_int_conversions"] = n
-		out.Floors["float_to_int_conversions"] = 4
+		out.Floors["float_to_int_conversions"] = 1
 		return out
 	},
 }
@@ -967,40 +967,29 @@ var ruleListIndex = &Rule{
 					}
 					n++
 					key := fmt.Sprintf("%s: sequence[%d] #%d", fnName(fn), k, ord.next(fnName(fn)))
-					good := false
-					var failBlk *ssa.BasicBlock
-					for cur := b; cur != nil && !good; cur = cur.Idom() {
-						if len(cur.Preds) != 1 {
-							continue
-						}
-						pr := cur.Preds[0]
-						iff, ok := pr.Instrs[len(pr.Instrs)-1].(*ssa.If)
-						if !ok {
-							continue
-						}
-						onTrue := pr.Succs[0] == cur
-						switch c := iff.Cond.(type) {
-						case *ssa.BinOp:
-							lb, ok := listLenOf(c.X, "list")
-							if !ok || lb != base {
-								continue
-							}
-							kk, ok := constInt(c.Y)
-							if !ok {
-								continue
-							}
-							if (c.Op == token.EQL && onTrue && kk > k) || (c.Op == token.NEQ && !onTrue && kk > k) {
-								good = true
-								if c.Op == token.NEQ {
-									failBlk = pr.Succs[0]
-								} else {
-									failBlk = pr.Succs[1]
+					good, failBlk := p.lenGuard(b, base, k)
+					if !good {
+						// a one-block accessor of the list (`first()`): the
+						// obligation is its callers'
+						if q, isParam := base.(*ssa.Parameter); isParam && len(fn.Blocks) == 1 && len(fn.Params) > 0 && q == fn.Params[0] {
+							ncall, bad := 0, ""
+							for _, cfn := range p.execFuncs() {
+								for _, c := range p.allCalls(cfn) {
+									if c.Call.StaticCallee() != fn || len(c.Call.Args) == 0 {
+										continue
+									}
+									ncall++
+									if g, _ := p.lenGuard(c.Block(), c.Call.Args[0], k); !g && bad == "" {
+										bad = p.pos(c.Pos())
+									}
 								}
 							}
-						case *ssa.Call:
-							if c.Call.StaticCallee() != nil && p.isEmptyMethod(c.Call.StaticCallee()) && c.Call.Args[0] == base && !onTrue && k == 0 {
-								good = true
+							if bad == "" {
+								out.ok(key, p.pos(ia.Pos()), fnName(fn), fmt.Sprintf("an accessor of the list: the length is tested before each of its %d calls", ncall))
+								continue
 							}
+							out.viol(key, p.pos(ia.Pos()), fnName(fn), "an element of an item sequence is read by an accessor that is called at "+bad+" without a dominating test of the sequence's length: an empty or longer sequence panics or is silently truncated")
+							continue
 						}
 					}
 					if !good {
@@ -1030,16 +1019,56 @@ var ruleListIndex = &Rule{
 			}
 		}
 		out.Counts["constant_index_loads"] = n
-		out.Floors["constant_index_loads"] = 4
+		out.Floors["constant_index_loads"] = 1
 		return out
 	},
+}
+
+// lenGuard: block b is dominated by a test of the length of base's list that
+// makes index k valid; failBlk is where the test's other outcome goes.
+func (p *Prog) lenGuard(b *ssa.BasicBlock, base ssa.Value, k int64) (good bool, failBlk *ssa.BasicBlock) {
+	for cur := b; cur != nil && !good; cur = cur.Idom() {
+		if len(cur.Preds) != 1 {
+			continue
+		}
+		pr := cur.Preds[0]
+		iff, ok := pr.Instrs[len(pr.Instrs)-1].(*ssa.If)
+		if !ok {
+			continue
+		}
+		onTrue := pr.Succs[0] == cur
+		switch c := iff.Cond.(type) {
+		case *ssa.BinOp:
+			lb, ok := listLenOf(c.X, "list")
+			if !ok || lb != base {
+				continue
+			}
+			kk, ok := constInt(c.Y)
+			if !ok {
+				continue
+			}
+			if (c.Op == token.EQL && onTrue && kk > k) || (c.Op == token.NEQ && !onTrue && kk > k) {
+				good = true
+				if c.Op == token.NEQ {
+					failBlk = pr.Succs[0]
+				} else {
+					failBlk = pr.Succs[1]
+				}
+			}
+		case *ssa.Call:
+			if c.Call.StaticCallee() != nil && p.isEmptyMethod(c.Call.StaticCallee()) && c.Call.Args[0] == base && !onTrue && k == 0 {
+				good = true
+			}
+		}
+	}
+	return good, failBlk
 }
 
 func init() {
 	register(ruleFinite, ruleDiv, ruleOvf, ruleF2I, ruleListIndex)
 	addProp(&PropSpec{
 		ID:          "C13",
-		Rules:       []string{"R-DIV", "R-OVF", "R-FINITE", "R-LISTINDEX", "R-TOWER", "R-F2I", "R-FOLD", "R-NUMLIT", "R-INPUT-RO", "R-PREC", "R-ERRFIRST"},
+		Rules:       []string{"R-DIV", "R-OVF", "R-FINITE", "R-LISTINDEX", "R-TOWER", "R-F2I", "R-FOLD", "R-NUMLIT", "R-INPUT-RO", "R-PREC", "R-ERRFIRST", "R-ARITHOP"},
 		Explanation: "'Exact or loud' as guard discipline on SSA instructions: every division on item values is zero-tested, every raw int64 operation on item values is reachable only behind an overflow test on the same operands (falling back to the double operation), every computed double is finiteness-checked before it can become an item, every operand sequence is length-tested before its single element is read, and the three numeric representations are handled together.",
 		Decided: []string{"R-DIV: zero tests dominate / and %, the zero branch is a suppressible error", "R-OVF: raw integer arithmetic only behind an overflow test (binary) or a MinInt64 test (unary)",
 			"R-FINITE: no Inf/NaN leaves a computing function", "R-LISTINDEX: singleton test before operand[0], failing branch suppressible", "R-TOWER: numeric representations are siblings"},
